@@ -156,6 +156,22 @@ def lower_of(ctx, repo, fi, cfg, loop, use_node, a, _depth=0):
             # receiver must not be reassigned between guard and use
         if cut and (best is None or c > best):
             best, why = c, f"guard `{ast.unparse(g.ast)}` -> raise (line {g.lineno})"
+    # the same test may be written once per branch (one guard per alternative): together they protect the use when every path
+    # to it passes one of them; the bound is the weakest of theirs
+    bounded = [(g, guard_bound(repo, fi, g, txt)) for g in cfg.nodes.values() if g.kind == "test"]
+    bounded = [(g, c) for g, c in bounded if c is not None]
+    if len(bounded) > 1:
+        ids = {g.id for g, _ in bounded}
+        if isinstance(a, ast.Name):
+            cut_all = all(must_pass(cfg, lambda n, d=d: n.id in ids or (n in defs and n.id != d.id), start=s, targets={use_node.id})
+                          for d in defs for s, l in cfg.succ[d.id] if l not in ("exc", "excp")) if defs else False
+        else:
+            lnode = next(n for n in cfg.nodes.values() if n.kind == "test" and n.extra is loop)
+            start = [t for t, l in cfg.succ[lnode.id] if l == "T"][0]
+            cut_all = must_pass(cfg, lambda n: n.id in ids, start=start, targets={use_node.id})
+        weakest = min(c for _, c in bounded)
+        if cut_all and (best is None or weakest > best):
+            best, why = weakest, f"guards {sorted({ast.unparse(g.ast) for g, _ in bounded})} -> raise, one on every path"
     return best, why
 
 
@@ -217,6 +233,9 @@ def guard_bound(repo, fi, g, txt):
                     vals.append(repo.fold(fi.mod, s.value))
             if vals and all(isinstance(v, int) for v in vals):
                 h = min(vals)
+            elif not vals:
+                v = repo.fold(fi.mod, r.right)           # a module-level constant
+                h = v if isinstance(v, int) and not isinstance(v, bool) else None
         else:
             v = repo.fold(fi.mod, r.right)
             h = v if isinstance(v, int) else None
